@@ -45,6 +45,9 @@ func init() {
 			"every transition is the real action on a clone of the state; states = canonical worlds. distinct = (backend, context, chart, take-ownership, placement vector, step); " +
 			"non-trivial = at least one slot occupied (counter cases_with_occupied_chart_slot). " +
 			"Retry contexts: upgrade adding the slots after a first attempt that FAILED before creating any of them (failed pre-upgrade hook | rejected create of the first new resource): ledger 1:deployed 2:failed, then the placements, then the retry. " +
+			"Create-namespace contexts: install / install --replace with --create-namespace, release namespace object absent | present, conflicts inside the namespace (a, w) and outside it (cluster-scoped cr); " +
+			"a refused install must not have sent POST /namespaces either. Chart-own-metadata charts: every slot document hard-codes app.kubernetes.io/managed-by=kustomize (variant 2: also foreign meta.helm.sh/release-* annotations); " +
+			"all contexts x the 4-slot chart x 7^2 placements of (a,w); oracle (b) demands this release's three values on the live objects. " +
 			"Carry-over family: release owns {b0 + slots}; every subset of its live objects is deleted out-of-band; then {upgrade changing the content | upgrade with the identical chart | rollback} x --force on/off x take-ownership on/off (upgrades); " +
 			"oracle (b): every manifest object carries the ownership metadata afterwards (re-created and PUT-replaced objects included). " +
 			"Mid-operation injection family: {install of one slot, install of two slots adopting an owned one, upgrade adding a slot, rollback re-creating a slot} (take-ownership off) x slot in {a,s,w,cr} x " +
@@ -67,6 +70,10 @@ func init() {
 			"delete-checked", "hook-delete-checked", "bystander-compared", "uninstall-ok", "rollback-ok", "upgrade-removes-slots", "upgrade-updates-slots",
 			"uninstall-after-refusal", "rollback-recreates",
 			"refused-cluster-scoped-other-ns:install", "refused-cluster-scoped-other-ns:replace", "refused-cluster-scoped-other-ns:upgrade", "takeover-cluster-scoped",
+			"refused:create-namespace(ns-absent)", "refused:create-namespace(ns-exists)", "refused:create-namespace-conflict-outside-namespace",
+			"create-namespace:created", "create-namespace:already-exists-tolerated",
+			"chart-own-metadata-1-overridden:install", "chart-own-metadata-1-overridden:replace", "chart-own-metadata-1-overridden:upgrade", "chart-own-metadata-1-overridden:rollback",
+			"chart-own-metadata-2-overridden:install", "chart-own-metadata-2-overridden:upgrade",
 			"refused:retry-after-failed-upgrade", "carry:recreated-stamped", "carry:force-replaced-stamped", "carry:rollback-recreated-stamped",
 			"inject:install", "inject:install-adopting", "inject:upgrade", "inject:rollback", "inject-refused-pre-check", "inject-create-409", "inject-abort-not-in-original", "inject-untouched-checked",
 		},
@@ -533,7 +540,9 @@ type verdict struct {
 	Deletes       int
 	HookDeletes   int
 	Bystanders    int
-	Stamped       int
+	// NamespaceCreated: install --create-namespace created the release namespace object
+	NamespaceCreated bool
+	Stamped          int
 }
 
 func manifestDocs(manifest string) map[string]hx.Doc {
@@ -799,6 +808,11 @@ func eval(t *opspace.Transition) verdict {
 			v.Bystanders++
 			continue
 		}
+		if p == nsObjPath && how == "created" && op.Kind == "install" && op.CreateNamespace && !v.ExpectRefusal {
+			// install --create-namespace may create the release namespace (never on a refused install: clause (a))
+			v.NamespaceCreated = true
+			continue
+		}
 		add("C", fmt.Sprintf("C-touched|%s|%s|%s", shape, kindOfPath(p), how),
 			fmt.Sprintf("%s is not named by any manifest or operated hook of %s but was %s (before: %s)", resOfPath(p), name, how, classify(pb, name)), nil)
 	}
@@ -939,6 +953,12 @@ func blocksOf(thorough bool) []block {
 			// cluster-scoped family: ClusterRole cr alone and together with ConfigMap a
 			{driver: "memory", ctxs: contexts(false), masks: []int{cr, cr | 1}, kinds: 7, vary: []int{0, 3}},
 			{driver: "secrets", ctxs: contexts(false), masks: []int{cr}, kinds: 7, vary: []int{3}},
+			// install --create-namespace, release namespace object absent / present; conflicts inside (a, w) and outside (cr) the namespace
+			{driver: "memory", ctxs: createNsContexts(false), masks: []int{7}, kinds: 7, vary: []int{0, 2}},
+			{driver: "memory", ctxs: createNsContexts(false), masks: []int{cr, cr | 1}, kinds: 7, vary: []int{0, 3}},
+			// charts whose documents hard-code ownership metadata of their own
+			{driver: "memory", ctxs: contextsWith(false, ctxOpt{Own: 1}), masks: []int{15}, kinds: 7, vary: []int{0, 2}},
+			{driver: "memory", ctxs: contextsWith(false, ctxOpt{Own: 2}), masks: []int{15}, kinds: 7, vary: []int{0, 2}},
 		}
 	}
 	// thorough: the memory backend with every chart subset, 9 placement kinds, hook and no-hook charts and the
@@ -951,7 +971,30 @@ func blocksOf(thorough bool) []block {
 		{driver: "memory", ctxs: contexts(true), masks: []int{cr, cr | 1}, kinds: 9, vary: []int{0, 3}},
 		{driver: "memory", ctxs: contexts(false), masks: []int{15}, kinds: 7, vary: []int{0, 1, 2, 3}},
 		{driver: "secrets", ctxs: contexts(false), masks: []int{cr, cr | 1}, kinds: 7, vary: []int{0, 3}},
+		{driver: "memory", ctxs: createNsContexts(true), masks: []int{7}, kinds: 7, vary: []int{0, 1, 2}},
+		{driver: "memory", ctxs: createNsContexts(true), masks: []int{cr, cr | 1}, kinds: 9, vary: []int{0, 3}},
+		{driver: "secrets", ctxs: createNsContexts(false), masks: []int{cr, cr | 1}, kinds: 7, vary: []int{0, 3}},
+		{driver: "memory", ctxs: contextsWith(true, ctxOpt{Own: 1}), masks: []int{15, 5}, kinds: 7, vary: []int{0, 2}},
+		{driver: "memory", ctxs: contextsWith(true, ctxOpt{Own: 2}), masks: []int{15, 5}, kinds: 7, vary: []int{0, 2}},
+		{driver: "secrets", ctxs: contextsWith(false, ctxOpt{Own: 1}), masks: []int{15}, kinds: 7, vary: []int{0, 2}},
 	}
+}
+
+// createNsContexts: the install / install --replace contexts with --create-namespace, with the release namespace
+// object absent and present. quick: install on an empty ledger (both) and install --replace on a 1-revision ledger (absent).
+func createNsContexts(thorough bool) []ctxDef {
+	var out []ctxDef
+	for _, cx := range contextsWith(false, ctxOpt{CreateNS: "absent"}) {
+		if thorough || strings.HasPrefix(cx.Name, "install/empty-ledger") || strings.HasPrefix(cx.Name, "replace/ledger-1") {
+			out = append(out, cx)
+		}
+	}
+	for _, cx := range contextsWith(false, ctxOpt{CreateNS: "exists"}) {
+		if thorough || strings.HasPrefix(cx.Name, "install/empty-ledger") {
+			out = append(out, cx)
+		}
+	}
+	return out
 }
 
 type prefixState struct {
@@ -1124,6 +1167,13 @@ func (x *explorer) scenario(drv string, cx ctxDef, mask int, pl placement) {
 		if cx.SlotsAbsentAfterPrefix {
 			c.Floor("refused:retry-after-failed-upgrade")
 		}
+		if cx.CreateNS != "" {
+			c.Floor("refused:create-namespace(ns-" + cx.CreateNS + ")")
+			if mask&8 != 0 && v.Conflicts == 1 && pl[3] != plAbsent && pl[3] != plOwned {
+				// the only conflict lives outside the release namespace (cluster-scoped)
+				c.Floor("refused:create-namespace-conflict-outside-namespace")
+			}
+		}
 	case v.ExpectRefusal:
 		out = "REFUSAL-MISSING"
 	case t.Res.Failed:
@@ -1145,6 +1195,21 @@ func (x *explorer) scenario(drv string, cx ctxDef, mask int, pl placement) {
 	default:
 		out = "created-fresh"
 		c.Floor("created-fresh")
+	}
+	if cx.CreateNS != "" {
+		out = "create-ns(" + cx.CreateNS + "):" + out
+		if v.NamespaceCreated {
+			c.Floor("create-namespace:created")
+		}
+		if cx.CreateNS == "exists" && !t.Res.Failed && !v.ExpectRefusal {
+			c.Floor("create-namespace:already-exists-tolerated")
+		}
+	}
+	if cx.Own > 0 {
+		out = fmt.Sprintf("chart-own-metadata-%d:%s", cx.Own, out)
+		if !t.Res.Failed && !v.ExpectRefusal && len(v.Problems) == 0 && v.Stamped > 0 {
+			c.Floor(fmt.Sprintf("chart-own-metadata-%d-overridden:%s", cx.Own, cx.Kind))
+		}
 	}
 	c.Outcome(cx.Kind + ":" + out)
 	if occupiedChart >= 2 || (occupiedChart == 1 && cx.Ledger == 2) {
@@ -1190,7 +1255,7 @@ func (x *explorer) scenario(drv string, cx ctxDef, mask int, pl placement) {
 			}
 		case fo.Kind == "rollback":
 			c.Floor("rollback-ok")
-		case fo.Kind == "upgrade" && fo.Chart.Version == "2":
+		case fo.Kind == "upgrade" && strings.HasPrefix(fo.Chart.Version, "2"):
 			c.Floor("upgrade-updates-slots")
 		case fo.Kind == "upgrade":
 			c.Floor("upgrade-removes-slots")
